@@ -136,6 +136,30 @@ def generate(ctx):
         add("L", t, "corpus")
     for k, t in c12gen.YACC_CORPUS:
         add("Y" + k, t, "corpus")
+    # ---- `//` whole-line comments through new_with_options(allow_wholeline_comments = on): every truncation
+    for t in c12gen.LEX_WLC_OPT:
+        add("LO", t, "valid")
+        for v in c12gen.truncations(t):
+            add("LO", v, "near")
+    # the from_str route with the flag in the section (LEX_WLC heads LEX_CORPUS): every truncation here too
+    # (the general lex loop below truncates every sample as well; these come first so that they are not skipped
+    # when a shard runs into many hangs)
+    for t in c12gen.LEX_WLC:
+        for v in c12gen.truncations(t):
+            add("L", v, "near")
+    # ---- %prec everywhere (empty productions in particular): every kind x {AST + grammar, YaccGrammar::new}, from_str
+    # with a section of every kind (both routes); every truncation through YaccGrammar::new of two kinds
+    for t in c12gen.YACC_PREC:
+        for k in "NOUGE":
+            add("Y" + k, t, "valid")
+            add("Z" + k, t, "valid")
+        for h in c12gen.YACC_PREC_SECTIONS:
+            add("YF", h + t, "valid")
+            add("ZF", h + t, "valid")
+        for v in c12gen.truncations(t)[:-1]:
+            add("ZN", v, "near")
+            add("ZG", v, "near")
+        add("ZF", t, "near")                 # from_str without a section
 
     # ---- headers
     n_hdr = ctx.n(260, 2500)
@@ -157,7 +181,9 @@ def generate(ctx):
     for i in range(n_lex):
         s = c12gen.lex_spec(rng) if i >= len(c12gen.LEX_CORPUS) else c12gen.LEX_CORPUS[i]
         add("L", s, "valid")
-        for v in c12gen.neighbourhood(rng, s, n_trunc=(400 if i < ctx.n(25, 200) else 5), n_inject=ctx.n(10, 40), n_mut=ctx.n(10, 20)):
+        # EVERY truncation of every lex sample (the texts are short)
+        # (thorough tier: of the first 500 samples; a sample of 5 truncations of the others)
+        for v in c12gen.neighbourhood(rng, s, n_trunc=(10 ** 6 if i < ctx.n(10 ** 6, 500) else 5), n_inject=ctx.n(10, 40), n_mut=ctx.n(10, 20)):
             add("L", v, "near")
     for _ in range(ctx.n(600, 6000)):
         add("L", rng.choice(["", "%%\n", "%x S\n%%\n", "%%\na "]) + c12gen.random_utf8(rng, rng.randint(0, 12)), "random")
@@ -170,6 +196,10 @@ def generate(ctx):
         add("Y" + kind, s, "valid")
         if "%grmtools" in s or rng.random() < 0.2:
             add("YF", s, "valid")
+        # the one-call routes text -> grammar (YaccGrammar::new / from_str)
+        add("Z" + kind, s, "valid")
+        if "%grmtools" in s:
+            add("ZF", s, "valid")
         for v in c12gen.neighbourhood(rng, s, n_trunc=(400 if i < ctx.n(25, 200) else 5), n_inject=ctx.n(10, 40), n_mut=ctx.n(10, 20)):
             add("Y" + (kind if rng.random() < 0.7 else rng.choice(["N", "G", "E", "F", "F"])), v, "near")
     for _ in range(ctx.n(600, 6000)):
@@ -343,7 +373,12 @@ def run(ctx):
         ctx.count(w[0] + "_" + origin)
         cls = out.split(" ")[0] if out else "EMPTY"
         ctx.count(w[0] + "_" + cls)
+        if w in ("LO",) or w[0] == "Z":
+            ctx.count("route_%s_%s" % ("new_with_options" if w == "LO" else "YaccGrammar::new" if w != "ZF" else "YaccGrammar::from_str", cls))
         if cls == "SKIPPED":
+            continue
+        if cls == "NOTRUN" and w == "LO":
+            # new_with_options unwraps the section parser's result: a malformed section is not an input of this route
             continue
         sline = line if len(line) < 8000 else line[:120] + "...(hex of the text, %d chars)" % len(line)
         replay = "echo '%s' | GVH_CASE_TIMEOUT_MS=2000 .work/target/release/c12" % sline
@@ -352,7 +387,9 @@ def run(ctx):
                       % (MAX_SETTING_DEPTH, w, DEEP_RECIPE[t].replace("'", "'\\''")))
         if t in DEEP_RECIPE:
             ctx.count("deep_" + w)
-        base = {"parser": {"H": "GrmtoolsSectionParser::parse (required=%s)%s" % (w == "H1", " on an 8 MiB stack" if w == "HS" else ""), "Y": "ASTWithValidityInfo::%s + YaccGrammar::new_from_ast_with_validity_info" % ("from_str" if w == "YF" else "new, kind " + w[1:]), "L": "LRNonStreamingLexerDef::from_str"}[w[0]],
+        base = {"parser": {"H": "GrmtoolsSectionParser::parse (required=%s)%s" % (w == "H1", " on an 8 MiB stack" if w == "HS" else ""), "Y": "ASTWithValidityInfo::%s + YaccGrammar::new_from_ast_with_validity_info" % ("from_str" if w == "YF" else "new, kind " + w[1:]),
+                           "Z": "YaccGrammar::from_str" if w == "ZF" else "YaccGrammar::new (new_with_storaget), kind " + w[1:],
+                           "L": "LRNonStreamingLexerDef::new_with_options(text, allow_wholeline_comments = Some(true))" if w == "LO" else "LRNonStreamingLexerDef::from_str"}[w[0]],
                 "text": t if len(t) < 4000 else t[:200] + " ...(%d chars)... " % len(t) + t[-100:],
                 "case": sline, "impl": out[:600], "replay_cmd": replay}
         bad = None
@@ -378,7 +415,7 @@ def run(ctx):
             elif cls in ("PANIC", "HANG"):
                 # every parser starts with the section parser: attribute by the two mirror variants
                 known = classify_header_failure(out, mo_, mf_) if not HEADER_FIXED else None
-            elif bad == "BADSPAN" and w == "L" and "NOSPAN" not in out:
+            elif bad == "BADSPAN" and w in ("L", "LO") and "NOSPAN" not in out:
                 known = classify_lex_badspan(out, t)
             d = dict(base)
             if t in DEEP_RECIPE:
@@ -425,9 +462,16 @@ def run(ctx):
                             "circled/ideographic numerals, KELVIN SIGN, LONG S, dotted/dotless I, capital sharp S, fullwidth A, combining "
                             "marks, U+2028/2029/0085/00A0/3000/200B, BOM, 4-byte emoji) each inserted at every offset and replacing every "
                             "character of %d sample texts (yacc of 3 kinds + from_str with %%expect/%%expect-rr/%%token/%%prec/actions; lex "
-                            "with start states, quoted names, repetition counts; headers with numbers, strings, arrays), random UTF-8; non-trivial = non-empty text that is not pure random noise "
+                            "with start states, quoted names, repetition counts; headers with numbers, strings, arrays), random UTF-8; EVERY truncation of EVERY "
+                            "lex sample; %d lex texts with `//` whole-line comments in the declarations and rules sections (flag from the section: "
+                            "from_str; flag through new_with_options: %d texts), every truncation of them through both routes; %d yacc texts with "
+                            "%%prec on empty productions / naming undeclared tokens, rules, nothing / at odd places, each as all 5 kinds through "
+                            "ASTWithValidityInfo + new_from_ast_with_validity_info, through YaccGrammar::new and (with a section of each kind) "
+                            "through both from_str routes, every truncation through YaccGrammar::new; generated yacc samples also through "
+                            "YaccGrammar::new; non-trivial = non-empty text that is not pure random noise "
                             "accepted silently; distinct by token skeleton (letters/digits/non-ASCII runs collapsed) per parser"
-                            % (len(c12gen.ODD_CHARS), len(c12gen.ODD_YACC) + len(c12gen.ODD_LEX) + len(c12gen.ODD_HEADERS)))
+                            % (len(c12gen.ODD_CHARS), len(c12gen.ODD_YACC) + len(c12gen.ODD_LEX) + len(c12gen.ODD_HEADERS),
+                               len(c12gen.LEX_WLC), len(c12gen.LEX_WLC_OPT), len(c12gen.YACC_PREC)))
     ctx.coverage["odd_char_cases"] = sum(1 for c in cases if c[2] == "odd")
     ctx.coverage["exhaustive"] = False
     ctx.coverage["cases_generated"] = len(cases)
